@@ -553,6 +553,165 @@ static void run_dump(const Case& c) {
   }
 }
 
+// ---------------------------------------------------------------- (c2) dumps of more than 2^31 / 2^32 bytes
+//
+// "For any start address", "independent of how the data is split across iovecs" has no size limit: sizes are size_t /
+// uint64_t in every signature. A dump of several GiB is cheap to REQUEST because iovecs may alias: thousands of iovecs
+// that all point at one block of about 1 MiB. Two ways to look at such a dump without producing gigabytes of text:
+//   head   - the callback overload; the callback throws once the first K lines are complete (no terminal guard object
+//            is alive between two lines, so nothing else runs during the unwinding). The K lines must be what the
+//            column decoder expects for the first K x 16 addresses, whatever lies behind them.
+//   sparse - COLLAPSE_ZERO_LINES over a zero background (one aliased zero block) with a few short islands of non-zero
+//            bytes at chosen distances from the start and from the end (around 2^31 and 2^32 in particular): the
+//            output is the first line, the last line and the lines that touch an island, all decoded and compared.
+//            The dumper still walks every line, so one such case costs seconds; there are only a few of them.
+struct BigDump {
+  uint64_t start = 0, total = 0, flags = 0;
+  bool sparse = false;
+  string block; // head: the aliased pattern block; sparse: the aliased zero block
+  vector<std::pair<uint64_t, string>> islands; // sparse: offset -> non-zero bytes; sorted, disjoint, inside [0, total)
+
+  uint8_t at(uint64_t off) const {
+    if (!sparse) return static_cast<uint8_t>(block[off % block.size()]);
+    for (const auto& is : islands)
+      if (off >= is.first && off - is.first < is.second.size()) return static_cast<uint8_t>(is.second[off - is.first]);
+    return 0;
+  }
+  void tile(vector<struct iovec>& v, uint64_t len) const {
+    while (len) {
+      uint64_t n = std::min<uint64_t>(len, block.size());
+      v.push_back(iovec{const_cast<char*>(block.data()), static_cast<size_t>(n)});
+      len -= n;
+    }
+  }
+  vector<struct iovec> iovs() const {
+    vector<struct iovec> v;
+    uint64_t pos = 0;
+    for (const auto& is : islands) {
+      tile(v, is.first - pos);
+      v.push_back(iovec{const_cast<char*>(is.second.data()), is.second.size()});
+      pos = is.first + is.second.size();
+    }
+    tile(v, total - pos);
+    return v;
+  }
+};
+
+static string big_where(const BigDump& b, u128 la) {
+  // position class of a line for the failure signature
+  u128 first = static_cast<u128>(b.start) & ~static_cast<u128>(15);
+  u128 from_start = la - first, to_end = static_cast<u128>(b.start) + b.total - la;
+  auto cls = [](u128 d) { return d < (static_cast<u128>(1) << 31) ? "<2^31" : (d < (static_cast<u128>(1) << 32) ? "<2^32" : ">=2^32"); };
+  return cat("line-", cls(from_start), "-from-start,", cls(to_end), "-to-end");
+}
+
+static void check_big_lines(const BigDump& b, const vector<vector<Cell>>& lines, const vector<u128>& addrs) {
+  u128 start = b.start, end = start + b.total;
+  u128 last_line = (end - 1) & ~static_cast<u128>(15);
+  uint64_t flags = b.flags;
+  size_t forced = (flags & F::O8) ? 2 : (flags & F::O16) ? 4 : (flags & F::O32) ? 8 : (flags & F::O64) ? 16 : 0;
+  auto digits_needed = [](u128 v) {
+    size_t n = 1;
+    while (v >>= 4) n++;
+    return n;
+  };
+  size_t auto_width = 2;
+  while (auto_width < digits_needed(last_line)) auto_width *= 2;
+  for (size_t li = 0; li < addrs.size(); li++) {
+    u128 la = addrs[li];
+    string where = big_where(b, la);
+    VCHECK(li < lines.size(), cat("dump-big:line-missing:", where), "the dump of ", b.total, " bytes at ", b.start, " has no line for address ", (uint64_t)la, " (", lines.size(), " lines printed, ", addrs.size(), " expected)");
+    DumpLine d = decode_line(lines[li], flags);
+    VCHECK(static_cast<u128>(d.addr) == la, cat("dump-big:line-address:", where), "line ", li, " of the dump of ", b.total, " bytes at ", b.start, " is for address ", d.addr, ", expected ", (uint64_t)la);
+    VCHECK(d.addr_digits == (forced ? std::max(forced, digits_needed(la)) : auto_width), "dump-big:address-width", "address ", (uint64_t)la, " printed with ", d.addr_digits, " digits");
+    for (int k = 0; k < 16; k++) {
+      u128 a = la + k;
+      if (a < start || a >= end) {
+        VCHECK(d.hexv[k] < 0, cat("dump-big:hex-outside-range:", where), "cell for address ", (uint64_t)a, " outside the dumped range shows ", d.hexv[k]);
+        if (flags & F::ASCII) VCHECK(d.ascii[k] == ' ', cat("dump-big:ascii-outside-range:", where), "ASCII cell outside the dumped range is not blank");
+        continue;
+      }
+      uint8_t v = b.at(static_cast<uint64_t>(a - start));
+      VCHECK(d.hexv[k] == v, cat(d.hexv[k] < 0 ? "dump-big:hex-missing:" : "dump-big:hex-value:", where), "address ", (uint64_t)a, " (offset ", (uint64_t)(a - start), " of ", b.total, " bytes dumped at ", b.start, ") holds ", (int)v, " but the dump shows ", d.hexv[k]);
+      if (flags & F::ASCII) {
+        bool printable = (v >= 0x20 && v <= 0x7E);
+        VCHECK(d.ascii[k] == (printable ? static_cast<char>(v) : ' '), cat("dump-big:ascii-value:", where), "ASCII cell at ", (uint64_t)a, " shows '", d.ascii[k], "' for byte ", (int)v);
+      }
+    }
+  }
+  VCHECK(lines.size() == addrs.size(), "dump-big:extra-lines", lines.size() - addrs.size(), " unexpected line(s) in the dump of ", b.total, " bytes at ", b.start, "; first: ", cells_text(lines[addrs.size()], 0, 30));
+}
+
+struct StopDump {};
+
+// case: n=[mode (0 head, 1 sparse), block length, total size, start, flags, pattern seed, then
+//          head: K;  sparse: entry point (0 format_data(iovec*), 1 callback, 2 format_data(vector), 3 print_data(FILE*, iovec*)), island count, (offset, length)...]
+static void run_bigdump(const Case& c) {
+  BigDump b;
+  bool sparse = c.u(0) != 0;
+  uint64_t block_len = c.u(1), seed = c.u(5);
+  b.sparse = sparse;
+  b.total = c.u(2);
+  b.start = c.u(3);
+  b.flags = c.u(4);
+  if (block_len < 4096 || block_len > (8u << 20) || b.total == 0 || b.total / block_len > 40000) throw std::logic_error("bigdump case outside domain");
+  if (static_cast<u128>(b.start) + b.total > (static_cast<u128>(1) << 64)) throw std::logic_error("dump beyond the 64-bit address space");
+  if (b.flags & (F::COLOR | F::FLOAT | F::DOUBLE)) throw std::logic_error("bigdump: flag outside domain");
+  // exactly-sized heap block: reads past it are ASan errors
+  b.block.assign(block_len, '\0');
+  if (!sparse)
+    for (uint64_t i = 0; i < block_len; i++) b.block[i] = static_cast<char>(1 + ((i * 2654435761ULL + seed) >> 7) % 255);
+  u128 first_line = static_cast<u128>(b.start) & ~static_cast<u128>(15);
+  u128 last_line = (static_cast<u128>(b.start) + b.total - 1) & ~static_cast<u128>(15);
+  Watchdog wd(600);
+  if (!sparse) {
+    size_t want = c.u(6);
+    if (want == 0 || want > 64) throw std::logic_error("bigdump: line count outside domain");
+    vector<struct iovec> iv = b.iovs();
+    string out;
+    size_t nl = 0;
+    try {
+      phosg::format_data([&](const void* p, size_t n) {
+        out.append(static_cast<const char*>(p), n);
+        if (n == 1 && *static_cast<const char*>(p) == '\n' && ++nl >= want) throw StopDump();
+      }, iv.data(), iv.size(), b.start, nullptr, 0, b.flags);
+    } catch (const StopDump&) {
+    }
+    vector<u128> addrs;
+    for (u128 la = first_line; la <= last_line && addrs.size() < want; la += 16) addrs.push_back(la);
+    check_big_lines(b, tokenize_dump(out, false), addrs);
+    ctx().cls("bigdump:head");
+  } else {
+    uint64_t entry = c.u(6), n_islands = c.u(7);
+    if (n_islands > 64 || !(b.flags & F::COLLAPSE)) throw std::logic_error("bigdump: sparse case outside domain");
+    uint64_t pos = 0;
+    for (uint64_t k = 0; k < n_islands; k++) {
+      uint64_t off = c.u(8 + 2 * k), len = c.u(9 + 2 * k);
+      if (off < pos || len == 0 || len > 4096 || off + len > b.total) throw std::logic_error("bigdump: islands must be sorted, disjoint and inside the data");
+      string bytes(len, '\0');
+      for (uint64_t i = 0; i < len; i++) bytes[i] = static_cast<char>(1 + (((off + i) * 2654435761ULL + seed) >> 7) % 255);
+      b.islands.emplace_back(off, bytes);
+      pos = off + len;
+    }
+    vector<struct iovec> iv = b.iovs();
+    string out;
+    switch (entry) {
+      case 0: out = phosg::format_data(iv.data(), iv.size(), b.start, nullptr, 0, b.flags); break;
+      case 1: phosg::format_data([&](const void* p, size_t n) { out.append(static_cast<const char*>(p), n); }, iv.data(), iv.size(), b.start, nullptr, 0, b.flags); break;
+      case 2: out = phosg::format_data(iv, b.start, nullptr, b.flags); break;
+      case 3: out = via_stream([&](FILE* f) { phosg::print_data(f, iv.data(), iv.size(), b.start, nullptr, 0, b.flags); }); break;
+      default: throw std::logic_error("bigdump: entry point outside domain");
+    }
+    std::set<u128> want_lines = {first_line, last_line};
+    for (const auto& is : b.islands)
+      for (u128 la = (static_cast<u128>(b.start) + is.first) & ~static_cast<u128>(15); la < static_cast<u128>(b.start) + is.first + is.second.size(); la += 16) want_lines.insert(la);
+    check_big_lines(b, tokenize_dump(out, false), vector<u128>(want_lines.begin(), want_lines.end()));
+    ctx().cls("bigdump:sparse");
+  }
+  if (b.total > (1ULL << 31)) ctx().nontrivial_case();
+  ctx().cls(b.total <= (1ULL << 31) ? "bigdump:total<=2^31" : (b.total <= (1ULL << 32) ? "bigdump:total<=2^32" : "bigdump:total>2^32"));
+}
+
 // ---------------------------------------------------------------- generators
 
 static string gen_mask(size_t len) {
@@ -672,7 +831,189 @@ static void gen_number(GrammarText& g) {
   }
 }
 
+// --- float literals that need correct rounding
+//
+// "%x" / "%%x" denote the single / double NEAREST to the literal x. Literals printed from a float with 9 / 17 digits never
+// put that to the test: they sit in the middle of their rounding interval. The hard literals are the long ones next to a
+// rounding boundary: the midpoint between two adjacent singles (doubles) is itself a number with one more mantissa bit, and
+// a literal just below / exactly on / just above it must give the lower / the even / the upper neighbour. Expectations are
+// built with integer arithmetic only: a neighbour pair is (m, m+1) x 2^e, its midpoint (2m+1) x 2^(e-1); the exact decimal
+// expansion of M x 2^E is computed digit by digit (M x 5^-E shifted by -E places for E < 0).
+
+// exact decimal expansion of M * 2^E: `digits` is an integer numeral with `frac` of its digits after the point
+struct ExactDecimal {
+  string digits;
+  size_t frac = 0;
+};
+static ExactDecimal exact_decimal(uint64_t M, int E) {
+  vector<uint8_t> d; // little-endian decimal digits
+  for (uint64_t v = M; v; v /= 10) d.push_back(static_cast<uint8_t>(v % 10));
+  if (d.empty()) d.push_back(0);
+  auto mul = [&](unsigned f) {
+    unsigned carry = 0;
+    for (auto& x : d) {
+      unsigned v = x * f + carry;
+      x = static_cast<uint8_t>(v % 10);
+      carry = v / 10;
+    }
+    while (carry) {
+      d.push_back(static_cast<uint8_t>(carry % 10));
+      carry /= 10;
+    }
+  };
+  ExactDecimal r;
+  for (int k = 0; k < E; k++) mul(2);
+  for (int k = 0; k < -E; k++) mul(5);
+  if (E < 0) r.frac = static_cast<size_t>(-E);
+  while (d.size() <= r.frac) d.push_back(0); // at least one digit before the point
+  for (size_t k = d.size(); k-- > 0;) r.digits.push_back(static_cast<char>('0' + d[k]));
+  return r;
+}
+
+// A literal for the exact value `x` moved by less than one unit of its last digit: dir < 0 below, 0 exactly, > 0 above.
+// `pad` extra digits are appended (for dir != 0 at least one), `tail` supplies them (any digits; adjusted so that the
+// literal really differs from x). style: 0 plain, 1 scientific, 2 plain with a redundant exponent.
+static string perturbed_literal(ExactDecimal x, int dir, size_t pad, const string& tail, unsigned style) {
+  if (dir < 0) {
+    // x - (something < 1 unit in the last place) = (digits - 1) followed by 9..., i.e. any tail that is not all zeros
+    size_t k = x.digits.size();
+    while (k-- > 0) {
+      if (x.digits[k] != '0') {
+        x.digits[k]--;
+        break;
+      }
+      x.digits[k] = '9';
+    }
+  }
+  if (dir != 0 && pad == 0) pad = 1;
+  for (size_t k = 0; k < pad; k++) {
+    char ch = (tail.empty() || dir == 0) ? '0' : static_cast<char>('0' + static_cast<unsigned char>(tail[k % tail.size()]) % 10);
+    if (dir < 0 && k + 4 < pad) ch = '9'; // hug the boundary: 999..9xyz
+    if (dir > 0 && k + 4 < pad) ch = '0'; // 000..0xyz
+    x.digits.push_back(ch);
+    x.frac++;
+  }
+  if (dir != 0 && x.digits.find_first_not_of('0', x.digits.size() - pad) == string::npos) x.digits.back() = '1';
+  size_t intlen = x.digits.size() - x.frac;
+  string r;
+  if (style == 1) {
+    size_t f = x.digits.find_first_not_of('0');
+    if (f == string::npos) return "0";
+    r = x.digits.substr(f, 1);
+    if (f + 1 < x.digits.size()) r += "." + x.digits.substr(f + 1);
+    long e10 = static_cast<long>(intlen) - 1 - static_cast<long>(f);
+    r += cat((f & 1) ? "E" : "e", (e10 >= 0 && (f & 2)) ? "+" : "", e10);
+    return r;
+  }
+  size_t lead = 0;
+  while (lead + 1 < intlen && x.digits[lead] == '0') lead++;
+  r = x.digits.substr(lead, intlen - lead);
+  if (x.frac) r += "." + x.digits.substr(intlen);
+  if (style == 2) r += "e0";
+  return r;
+}
+
+// A hexadecimal literal for (m . extra-bits) x 2^e: `bits` is the binary numeral (mantissa bits then extra bits), the value
+// is bits x 2^(e - extra). lead_zero_bits (0..3) shifts the hex digit alignment, int_digits hex digits go before the point.
+static string hex_float_literal(const string& bits, long exp2_of_last_bit, unsigned lead_zero_bits, size_t int_digits, bool upper) {
+  string b = string(lead_zero_bits, '0') + bits;
+  while (b.size() % 4) {
+    b += '0';
+    exp2_of_last_bit--;
+  }
+  string h;
+  for (size_t k = 0; k < b.size(); k += 4) {
+    int v = (b[k] - '0') * 8 + (b[k + 1] - '0') * 4 + (b[k + 2] - '0') * 2 + (b[k + 3] - '0');
+    h += (upper ? "0123456789ABCDEF" : "0123456789abcdef")[v];
+  }
+  if (int_digits > h.size()) int_digits = h.size();
+  long e = exp2_of_last_bit + 4 * static_cast<long>(h.size() - int_digits);
+  string r = upper ? "0X" : "0x";
+  r += h.substr(0, int_digits);
+  if (int_digits < h.size() || (lead_zero_bits & 1)) r += "." + h.substr(int_digits);
+  r += cat(upper ? "P" : "p", (e >= 0 && (lead_zero_bits & 2)) ? "+" : "", e);
+  return r;
+}
+
+// One hard literal: neighbours (m, m+1) x 2^e of the single (dbl: double) format, a literal at distance `dir` from their
+// midpoint, in decimal or hexadecimal notation; returns the text and the bits the syntax defines.
+struct HardFloat {
+  string literal;
+  uint64_t bits;
+};
+static HardFloat hard_float(bool dbl, uint64_t m, int e, int dir, bool hexform, size_t pad, const string& tail, unsigned style, bool neg) {
+  uint64_t keep = (dir < 0) ? m : (dir > 0) ? m + 1 : ((m & 1) ? m + 1 : m); // exact tie: the even neighbour
+  HardFloat r;
+  if (dbl) {
+    double v = ldexp(static_cast<double>(keep), e); // exact: keep <= 2^53 and the result is representable by the choice of e
+    if (neg) v = -v;
+    memcpy(&r.bits, &v, 8);
+  } else {
+    float v = ldexpf(static_cast<float>(keep), e);
+    if (neg) v = -v;
+    uint32_t b32;
+    memcpy(&b32, &v, 4);
+    r.bits = b32;
+  }
+  if (!hexform) {
+    r.literal = perturbed_literal(exact_decimal(2 * m + 1, e - 1), dir, pad, tail, style);
+  } else {
+    // binary numeral of m, then the extra bits: 1000.. (tie), 1000..01 (above), 0111..1 (below)
+    string bits;
+    for (uint64_t v = m; v; v >>= 1) bits.insert(bits.begin(), static_cast<char>('0' + (v & 1)));
+    size_t extra = 1 + std::max<size_t>(pad, dir != 0 ? 1 : 0);
+    string x(extra, dir < 0 ? '1' : '0');
+    x[0] = dir < 0 ? '0' : '1';
+    if (dir != 0) {
+      // the last few bits from the tail (they do not change the side of the midpoint), the very last one set
+      for (size_t k = 0; k < tail.size() && k + 2 < extra && k < 5; k++) x[extra - 2 - k] = static_cast<char>('0' + (static_cast<unsigned char>(tail[k]) & 1));
+      x.back() = '1';
+    }
+    r.literal = hex_float_literal(bits + x, static_cast<long>(e) - static_cast<long>(extra), style & 3, 1 + (style >> 2) % 3, (style >> 4) & 1);
+  }
+  if (neg) r.literal = "-" + r.literal;
+  return r;
+}
+
+// the neighbour pairs of a format: mantissa m (with its leading bit, or below it for subnormals) and exponent e such that
+// m x 2^e and (m+1) x 2^e are both finite values of the format
+static void gen_neighbours(bool dbl, uint64_t& m, int& e) {
+  const int mant = dbl ? 53 : 24, emin = dbl ? -1074 : -149, emax = dbl ? 970 : 103;
+  switch (vg::below(6)) {
+    case 0: e = emin + static_cast<int>(vg::below(static_cast<uint64_t>(emax - emin + 1))); break; // anywhere, subnormal binade included
+    case 1: e = -mant + 1 + static_cast<int>(vg::range(-2, 2)); break; // values around 1
+    default: e = -mant + 1 + static_cast<int>(vg::range(-40, 30)); break; // moderate magnitudes: literals of 25..70 digits
+  }
+  uint64_t top = 1ULL << (mant - 1);
+  switch (vg::below(5)) {
+    case 0: m = top + vg::below(4); break;
+    case 1: m = 2 * top - 1 - vg::below(4); break; // upper neighbour may be the next power of two
+    default: m = top + (vg::u64() & (top - 1)); break;
+  }
+  if (e == emin && vg::coin()) m = 1 + (vg::u64() & (top - 1)) % (top - 1); // subnormal neighbours (m >= 1: the result is never zero)
+}
+
+static void gen_hard_float(GrammarText& g) {
+  bool dbl = vg::chance(1, 3);
+  uint64_t m;
+  int e;
+  gen_neighbours(dbl, m, e);
+  int dir = static_cast<int>(vg::below(3)) - 1;
+  bool hexform = vg::chance(1, 3);
+  // extra decimal digits / extra bits beyond the midpoint's own expansion (hexadecimal: up to 100 bits, so that the literal also
+  // lies within 2^-53 and 2^-64 relative distance of the midpoint)
+  size_t pad = vg::chance(1, 4) ? vg::below(3) : 1 + vg::below(hexform ? 100 : 30);
+  HardFloat h = hard_float(dbl, m, e, dir, hexform, pad, vg::bytes(6), static_cast<unsigned>(vg::below(hexform ? 32 : 3)), vg::chance(1, 4));
+  g.text += dbl ? "%%" : "%";
+  g.text += h.literal;
+  g.out_int(h.bits, dbl ? 8 : 4);
+}
+
 static void gen_float(GrammarText& g) {
+  if (vg::chance(1, 3)) {
+    gen_hard_float(g);
+    return;
+  }
   bool dbl = vg::coin();
   g.text += dbl ? "%%" : "%";
   char buf[64];
@@ -690,8 +1031,15 @@ static void gen_float(GrammarText& g) {
         memcpy(&v, &bits, 8);
       }
     }
-    snprintf(buf, sizeof(buf), "%.17g", v);
-    g.text += buf;
+    if (vg::chance(1, 4)) {
+      // the same value with 18..60 significant digits (glibc prints the exact expansion, correctly rounded): still the nearest double
+      char lbuf[512];
+      snprintf(lbuf, sizeof(lbuf), vg::coin() ? "%.*e" : "%.*g", 17 + static_cast<int>(vg::below(44)), v);
+      g.text += lbuf;
+    } else {
+      snprintf(buf, sizeof(buf), "%.17g", v);
+      g.text += buf;
+    }
     uint64_t bits;
     memcpy(&bits, &v, 8);
     g.out_int(bits, 8);
@@ -708,8 +1056,14 @@ static void gen_float(GrammarText& g) {
         memcpy(&v, &bits, 4);
       }
     }
-    snprintf(buf, sizeof(buf), "%.9g", static_cast<double>(v));
-    g.text += buf;
+    if (vg::chance(1, 4)) {
+      char lbuf[512];
+      snprintf(lbuf, sizeof(lbuf), vg::coin() ? "%.*e" : "%.*g", 9 + static_cast<int>(vg::below(52)), static_cast<double>(v));
+      g.text += lbuf;
+    } else {
+      snprintf(buf, sizeof(buf), "%.9g", static_cast<double>(v));
+      g.text += buf;
+    }
     uint32_t bits;
     memcpy(&bits, &v, 4);
     g.out_int(bits, 4);
@@ -942,6 +1296,42 @@ static Case gen_dump() {
   return c;
 }
 
+static uint64_t gen_big_flags() {
+  uint64_t flags = vg::coin() ? F::ASCII : 0;
+  if (vg::chance(1, 4)) flags |= F::SKIPSEP;
+  if (vg::chance(1, 2)) flags |= vg::pick(dump_flag_axes(2));
+  if (vg::chance(1, 3)) flags |= F::NOCOLOR;
+  if (vg::chance(1, 4)) flags |= F::COLLAPSE; // the pattern block has no zero byte: nothing to collapse
+  return flags;
+}
+
+// head mode only (a sparse case costs seconds; those are enumerated)
+static Case gen_bigdump() {
+  const uint64_t G31 = 1ULL << 31, G32 = 1ULL << 32;
+  uint64_t total;
+  switch (vg::below(5)) {
+    case 0: total = vg::pick<uint64_t>({G31, G32, G31 + G32, 2 * G32, 3 * G32, 4 * G32 - G31}) + static_cast<uint64_t>(vg::range(-40, 40)); break;
+    case 1: total = vg::pick<uint64_t>({G31, G32, G31 + G32, 2 * G32}) + vg::scaled(4u << 20); break;
+    case 2: total = G31 - (8u << 20) + vg::below(4 * G32); break; // anywhere from just below 2 GiB to ~18 GiB
+    case 3: total = 1 + vg::scaled(G31); break; // the ordinary side of the threshold
+    default: total = G31 + 1 + vg::below(7 * G31); break;
+  }
+  uint64_t block_len = vg::pick<uint64_t>({1u << 20, (1u << 20) + 1, (1u << 20) - 16, 1u << 22, 3u << 19, (1u << 20) + 13});
+  const u128 top = static_cast<u128>(1) << 64;
+  uint64_t start;
+  switch (vg::below(7)) {
+    case 0: start = 0; break;
+    case 1: start = vg::below(64); break;
+    case 2: start = (1ULL << 32) - vg::below(64); break;
+    case 3: start = static_cast<uint64_t>(top - total) - (vg::coin() ? 0 : vg::below(64)); break; // ends at / just below 2^64
+    case 4: start = (1ULL << 31) + static_cast<uint64_t>(vg::range(-40, 40)); break;
+    case 5: start = vg::u64(); break;
+    default: start = vg::below(0x100000); break;
+  }
+  if (static_cast<u128>(start) + total > top) start = static_cast<uint64_t>(top - total);
+  return Case("bigdump").N(0).N(block_len).N(total).N(start).N(gen_big_flags()).N(vg::below(1000)).N(1 + vg::below(5));
+}
+
 // ---------------------------------------------------------------- enumerators
 
 static void enum_roundtrip(Enum& e) {
@@ -1042,7 +1432,43 @@ static void enum_grammar(Enum& e) {
             e.exec(Case("grammar").S(t2).S(d2).S(m2));
           }
         }
-  e.complete(cat("all ", items.size(), " hand-written construct samples alone and in ordered pairs, x little/big endian x mask on/off, with and without toggles between them"));
+  // float literals at rounding boundaries: every binade of the single format (the subnormal one included) and a band of
+  // double binades x neighbour pairs at the edges of and inside the binade x a long literal just below / exactly on / just
+  // above their midpoint x decimal and hexadecimal notation; expected bytes by integer construction (see hard_float)
+  size_t hard = 0;
+  for (int dbl = 0; dbl < 2; dbl++) {
+    const int mant = dbl ? 53 : 24, emin = dbl ? -1074 : -149, emax = dbl ? 970 : 103;
+    for (int ex = emin; ex <= emax && !e.stop; ex++) {
+      if (dbl && !(ex >= -52 - 80 && ex <= -52 + 80) && (ex - emin) % 64 != 0 && ex != emax) continue;
+      if (!e.mine(idx++)) continue;
+      const uint64_t top = 1ULL << (mant - 1);
+      uint64_t h = mix(static_cast<uint64_t>(ex + 5000), static_cast<uint64_t>(dbl) + 77);
+      vector<uint64_t> ms = {top, top + 1, 2 * top - 2, 2 * top - 1, top + (h & (top - 1))};
+      if (ex == emin) {
+        for (uint64_t sub : {uint64_t(1), uint64_t(2), top - 1, 1 + (h >> 8) % (top - 1)}) ms.push_back(sub);
+      }
+      for (uint64_t m : ms)
+        for (int dir = -1; dir <= 1; dir++)
+          for (int hexform = 0; hexform < 2; hexform++) {
+            uint64_t h2 = mix(h, m * 8 + static_cast<uint64_t>(dir + 1) * 2 + static_cast<uint64_t>(hexform));
+            string tail;
+            for (int k = 0; k < 6; k++) tail.push_back(static_cast<char>(h2 >> (8 * k)));
+            HardFloat hf = hard_float(dbl, m, ex, dir, hexform, 1 + (h2 >> 48) % (hexform ? 90 : 40), tail, static_cast<unsigned>((h2 >> 56) % (hexform ? 32 : 3)), (h2 >> 40) & 1);
+            bool big = (h2 >> 41) & 1;
+            string text = string(big ? "$" : "") + (dbl ? "%%" : "%") + hf.literal + ((h2 >> 42) & 1 ? " " : "\n");
+            string data;
+            unsigned bytes = dbl ? 8 : 4;
+            for (unsigned k = 0; k < bytes; k++) data.push_back(static_cast<char>(hf.bits >> (big ? 8 * (bytes - 1 - k) : 8 * k)));
+            e.exec(Case("grammar").S(text).S(data).S(string(bytes, '\xFF')));
+            hard++;
+          }
+    }
+  }
+  (void)hard;
+  e.complete(cat("all ", items.size(), " hand-written construct samples alone and in ordered pairs, x little/big endian x mask on/off, with and without toggles between them; "
+                 "float literals at rounding boundaries: all 253 binades of the single format (subnormals included) and 190 double binades (values 2^-80..2^80, every 64th "
+                 "binade elsewhere) x neighbour pairs at both edges of and inside the binade x a literal of up to 100 extra digits / bits just below, exactly on and just "
+                 "above the midpoint x decimal and hexadecimal notation"));
 }
 
 static void enum_dump(Enum& e) {
@@ -1122,6 +1548,72 @@ static void enum_dump(Enum& e) {
   e.complete(cat("every 1-4-way partition (3 cut points) of buffers of 0..", maxn, " bytes for data and previous buffer; ", e.thorough() ? "every" : "every third", " combination of column/endianness/offset-width/colour/collapse/separator flags x 5 data shapes x 4 start addresses x with/without previous buffer; every size 0..48 at every alignment at 7 base addresses (0, 0xF0, 0xFFF0, 0xFFFFFFF0, 2^64-80, 2^64-48, 2^64-16; dumps ending at or below 2^64)"));
 }
 
+static void enum_bigdump(Enum& e) {
+  uint64_t idx = 0;
+  const uint64_t G31 = 1ULL << 31, G32 = 1ULL << 32, MiB = 1u << 20;
+  // (1) head of dumps whose total size sits on, just below and just above 2^31, 2^32 and multiples: the first lines
+  vector<uint64_t> totals;
+  for (uint64_t base : {G31, G32, G32 + G31, 2 * G32, 3 * G32})
+    for (int64_t delta : {-int64_t(MiB), int64_t(-17), int64_t(-16), int64_t(-1), int64_t(0), int64_t(1), int64_t(15), int64_t(16), int64_t(17), int64_t(100), int64_t(MiB), int64_t(700 * MiB + 5)}) totals.push_back(base + static_cast<uint64_t>(delta));
+  const vector<uint64_t> flagsets = {F::ASCII | F::O64, 0, F::ASCII | F::SKIPSEP, F::O32 | F::COLLAPSE};
+  for (uint64_t total : totals)
+    for (unsigned sk = 0; sk < 4 && !e.stop; sk++) {
+      if (!e.mine(idx++)) continue;
+      uint64_t start = sk == 0 ? 0x1000 : sk == 1 ? 0x1005 : sk == 2 ? G32 - 8 : static_cast<uint64_t>((static_cast<u128>(1) << 64) - total);
+      for (uint64_t flags : flagsets) e.exec(Case("bigdump").N(0).N(sk == 1 ? MiB + 1 : MiB).N(total).N(start).N(flags).N(total % 1000).N(3));
+    }
+  // (2) sparse dumps walked to the end: islands at the start, around 2^31 and 2^32 bytes from the start, around 2^31 and 2^32
+  // bytes before the end, and at the very end
+  struct Sparse {
+    uint64_t total, start, entry;
+    bool thorough_only;
+  };
+  const vector<Sparse> sparse = {
+      {G31 + 3 * MiB + 5, 0x1005, 0, false},
+      {G32 + G31 + 2 * MiB + 9, G32 - 8, 1, true},
+      {G31 - MiB, 0, 2, true}, // the ordinary side
+      {G32 + 5 * MiB + 1, 7, 3, true},
+      {2 * G32 + 17, static_cast<uint64_t>((static_cast<u128>(1) << 64) - (2 * G32 + 17)), 0, true},
+      {G31 + 16, 0, 1, true},
+      {G31 + 17, 0, 0, true},
+  };
+  for (const auto& sp : sparse) {
+    if (sp.thorough_only && !e.thorough()) continue;
+    if (!e.mine(idx++) || e.stop) continue;
+    std::set<uint64_t> offs = {3, 40};
+    auto around = [&](uint64_t centre) {
+      for (int64_t delta : {int64_t(-33), int64_t(-1), int64_t(16), int64_t(47)}) {
+        int64_t o = static_cast<int64_t>(centre) + delta;
+        if (o >= 0 && static_cast<uint64_t>(o) + 8 <= sp.total) offs.insert(static_cast<uint64_t>(o));
+      }
+    };
+    for (uint64_t dist : {G31, G32, G31 + G32}) {
+      around(dist);
+      if (sp.total > dist) around(sp.total - dist);
+    }
+    around(sp.total / 2);
+    if (sp.total > 100) offs.insert(sp.total - 60);
+    offs.insert(sp.total - 5);
+    Case c("bigdump");
+    c.N(1).N(MiB).N(sp.total).N(sp.start).N(F::COLLAPSE | F::ASCII | (sp.entry & 1 ? F::O64 : 0)).N(sp.total % 1000).N(sp.entry);
+    vector<std::pair<uint64_t, uint64_t>> isl;
+    uint64_t pos = 0;
+    for (uint64_t o : offs) {
+      if (o < pos) continue;
+      uint64_t len = std::min<uint64_t>(5 + o % 23, sp.total - o);
+      isl.emplace_back(o, len);
+      pos = o + len;
+    }
+    c.N(isl.size());
+    for (const auto& is : isl) c.N(is.first).N(is.second);
+    e.exec(c);
+  }
+  e.complete(cat("head (first 3 lines through the callback overload) of dumps of 2^31, 2^32, 2^32+2^31, 2^33, 3*2^32 bytes -1 MiB, -17, -16, -1, +0, +1, +15, +16, +17, +100, +1 MiB, +700 MiB "
+                 "x 4 start addresses (aligned, unaligned, across 2^32, ending at 2^64) x 4 flag sets, built from aliased 1 MiB iovecs; ", e.thorough() ? "7 sparse dumps of 2^31-1 MiB .. 2^33 bytes" : "1 sparse dump of 2^31+3 MiB bytes (thorough: 7, up to 2^33 bytes)",
+                 " walked to the end with COLLAPSE_ZERO_LINES: islands at the start, around 2^31 / 2^32 / 2^31+2^32 bytes from the start "
+                 "and before the end, in the middle and at the very end, through the iovec, callback, vector and print_data entry points"));
+}
+
 int main(int argc, char** argv) {
   {
     uint16_t probe = 1;
@@ -1135,5 +1627,6 @@ int main(int argc, char** argv) {
   checks.push_back({"grammar", run_grammar, gen_grammar, 60000, 800000, 100, enum_grammar});
   checks.push_back({"parse_any", run_parse_any, gen_parse_any, 40000, 1500000, 100, nullptr});
   checks.push_back({"dump", run_dump, gen_dump, 16000, 600000, 100, enum_dump});
+  checks.push_back({"bigdump", run_bigdump, gen_bigdump, 1600, 20000, 100, enum_bigdump});
   return main_(argc, argv, checks);
 }
